@@ -1142,12 +1142,12 @@ radius_pkt_attr_add_addr(rad_pkt_hdr_p pkt, size_t pkt_buf_size, size_t *pkt_siz
 	switch (addr->ss_family) {
 	case AF_INET:
 		return (radius_pkt_attr_add(pkt, pkt_buf_size, pkt_size_ret,
-		    type_v4, sizeof(struct sockaddr_in),
+		    type_v4, sizeof(struct in_addr),
 		    (uint8_t*)&((struct sockaddr_in*)addr)->sin_addr,
 		    offset_ret));
 	case AF_INET6:
 		return (radius_pkt_attr_add(pkt, pkt_buf_size, pkt_size_ret,
-		    type_v6, sizeof(struct sockaddr_in6),
+		    type_v6, sizeof(struct in6_addr),
 		    (uint8_t*)&((struct sockaddr_in6*)addr)->sin6_addr,
 		    offset_ret));
 	}
